@@ -17,6 +17,7 @@ import Kap.Proofs.C12UnionSortedF
 import Kap.Proofs.C12Join
 import Kap.Proofs.C12PairL
 import Kap.Proofs.C12On
+import Kap.Proofs.C12BatchD
 namespace Kap.Props.C12
 open Kap.C12 Kap.C12.Spec
 
@@ -221,23 +222,62 @@ theorem join_batches_by_occurrence (cfg : JCfg) (ops : List JOp) (hn : cfg.names
     (((JNode.run cfg ops).2.1).filterMap (joinIntoBatch cfg)).Perm ((joinSetsAll cfg (pointsOf ops)).filterMap (joinIntoBatch cfg)) :=
   ⟨join_sets cfg ops hn hs ho, (join_sets cfg ops hn hs ho).filterMap _⟩
 
-/-- Full-strength statement of the remaining batch clause (stated, NOT proved; evaluated on every run by the
-spec oracle on the implementation's output — hook-driven batch cases and real window()|join() tasks — and
-tied by correspondence): when the points inside every batch are in (rounded) time order, `JoinIntoBatch`
-(the merge loop with its "backup" step) yields exactly the specification's joined batch: per rounded point
-time, ascending, one point per occurrence index, inner/outer fill. -/
-def joinIntoBatch_is_joinedBatch_stmt : Prop :=
-  ∀ (cfg : JCfg) (s : JSet JMsg), s.values.length = cfg.names.length →
-    (∀ v ∈ s.values, ∀ b, v = some b → nondecreasing (b.points.map (fun p => goRound cfg.tol p.time))) →
-    joinIntoBatch cfg s = joinedBatch cfg s
+/-- **joinIntoBatch_is_joinedBatch** — for every configuration and every set of batches (one per parent, some
+missing): when the points inside every batch are in (rounded) time order, `JoinIntoBatch` — the `BATCH_POINT`
+merge loop with its "backup" step, transcribed statement by statement — yields exactly the specification's
+joined batch: per rounded point time, ascending, one point per occurrence index k built from the k-th point at
+that time of every batch that has one; the inner join keeps only complete rows, the outer join fills; field
+names for filling from the first point of the first non-empty batch. Loop invariant (Kap/Proofs/C12BatchC,
+`batchLoop_eq`): emitted points ++ specification rows over what is LEFT of every parent (its points from
+`indexes[i]` on; nothing once marked empty) = the specification's batch; one pass (Kap/Proofs/C12BatchB,
+`PInv`) takes the least head time T and exactly the heads at T: after the parents `< i`, `set[j] != nil` iff
+parent j's head is at the current `setTime`, and `indexes[j]` is advanced by one exactly for those j — which
+is what the back-up step undoes. -/
+theorem joinIntoBatch_is_joinedBatch (cfg : JCfg) (s : JSet JMsg) (hl : s.values.length = cfg.names.length)
+    (hs : ∀ v ∈ s.values, nondecreasing ((batchPoints v).map (fun p => goRound cfg.tol p.time))) :
+    joinIntoBatch cfg s = joinedBatch cfg s := joinIntoBatch_eq_joinedBatch cfg s hl hs
 
-/-- Non-vacuity of that statement's model side: a merge with a backup step (parent 1 starts earlier) and
-duplicates at one time. -/
-example : let cfg : JCfg := { parents := 2, tol := 0, fill := .null, names := ["a", "b"], delim := ".", sname := "" }
+/-- Non-vacuity: the hypotheses hold for a merge with a backup step (parent 1 starts earlier), duplicates at one
+time and a missing third parent; the result has the expected times. -/
+example : let cfg : JCfg := { parents := 3, tol := 0, fill := .null, names := ["a", "b", "c"], delim := ".", sname := "" }
     let b (ps : List BPt) : JMsg := { time := 9, name := "m", grp := "", byName := false, dims := [], tags := [], fields := [], points := ps }
-    let s : JSet JMsg := { time := 9, values := [some (b [⟨2, [("v", "i:1")]⟩, ⟨2, [("v", "i:2")]⟩]), some (b [⟨1, [("v", "i:3")]⟩, ⟨2, [("v", "i:4")]⟩])] }
-    joinIntoBatch cfg s = joinedBatch cfg s ∧
+    let s : JSet JMsg := { time := 9, values := [some (b [⟨2, [("v", "i:1")]⟩, ⟨2, [("v", "i:2")]⟩]), some (b [⟨1, [("v", "i:3")]⟩, ⟨2, [("v", "i:4")]⟩]), none] }
+    s.values.length = cfg.names.length ∧
+    (∀ v ∈ s.values, nondecreasing ((batchPoints v).map (fun p => goRound cfg.tol p.time))) ∧
     (joinIntoBatch cfg s).map (·.points.map (·.1)) = some [1, 2, 2] := by decide
+
+/-- The ordering hypothesis is needed: a batch whose points go back in time is merged differently (the loop
+only ever looks at the next unread point of every batch). -/
+theorem joinIntoBatch_unordered_batch_differs :
+    let cfg : JCfg := { parents := 2, tol := 0, fill := .null, names := ["a", "b"], delim := ".", sname := "" }
+    let b (ps : List BPt) : JMsg := { time := 9, name := "m", grp := "", byName := false, dims := [], tags := [], fields := [], points := ps }
+    let s : JSet JMsg := { time := 9, values := [some (b [⟨2, [("v", "i:1")]⟩, ⟨1, [("v", "i:2")]⟩]), some (b [⟨1, [("v", "i:3")]⟩])] }
+    (joinIntoBatch cfg s).map (·.points.map (·.1)) = some [1, 2, 1] ∧
+    (joinedBatch cfg s).map (·.points.map (·.1)) = some [1, 2] := by decide
+
+/-- **The merge loop ends by itself** — for ANY batches (no ordering hypothesis): once the model's fuel is at
+least the number of batch points, more fuel never changes the result; every pass that finds a point consumes
+one, a pass that finds none marks every parent empty, and then `emptyCount < expected` is false
+(`joinIntoBatch` passes Σ(len+1)+1). So the fuel is no restriction of the model. -/
+theorem batch_loop_fuel_irrelevant (cfg : JCfg) (values : List (Option JMsg)) (fuel k : Nat)
+    (h : (values.map (fun v => (batchPoints v).length)).sum ≤ fuel) :
+    batchLoop cfg values (fuel + k) (values.map (fun _ => false)) 0 (values.map (fun _ => 0)) none [] =
+      batchLoop cfg values fuel (values.map (fun _ => false)) 0 (values.map (fun _ => 0)) none [] :=
+  batchLoop_fuel_add cfg values fuel k h
+
+/-- **Why the back-up step tests `set[j] != nil`**: the pass invariant says `indexes[j]` was advanced in this pass
+exactly for the parents with `set[j] != nil`. Giving back EVERY parent (`batchPassNoCheck`: `indexes[j]--`
+without the test) also takes a point from the parent that triggers the back-up, which is then re-read for
+ever: from the state after the first pass over a = [1, 3], b = [1, 2] the pass emits b's point at 2 but leaves
+`indexes` at [1, 1] with nobody marked empty — the Go loop would not end (and with a third, skipped parent an
+already joined point is joined again) — while the real pass advances to [1, 2]. -/
+theorem backup_without_nil_check_makes_no_progress :
+    let b (ps : List BPt) : JMsg := { time := 9, name := "m", grp := "", byName := false, dims := [], tags := [], fields := [], points := ps }
+    let values := [some (b [⟨1, [("v", "i:1")]⟩, ⟨3, [("v", "i:2")]⟩]), some (b [⟨1, [("v", "i:3")]⟩, ⟨2, [("v", "i:4")]⟩])]
+    let st : BIter := { set := [none, none], setTime := none, count := 0, empty := [false, false], emptyCount := 0, indexes := [1, 1], fieldNames := some ["v"] }
+    ((batchPassNoCheck 0 0 values st).indexes = [1, 1] ∧ (batchPassNoCheck 0 0 values st).count = 1 ∧
+      (batchPassNoCheck 0 0 values st).emptyCount = 0 ∧ (batchPassNoCheck 0 0 values st).setTime = some 2) ∧
+    ((batchPass 0 0 values st).indexes = [1, 2] ∧ (batchPass 0 0 values st).setTime = some 2) := by decide
 
 /-- **join_multiset_interleaving_independent** — for any two arrival orders that are interleavings of the same
 per-parent sequences (parents time-ordered within every group), the multisets of joined points emitted
